@@ -145,6 +145,15 @@ def gate_monitor(cfg, case, o):
         u = e[1][1:-1]
         if not backend or answer(backend[0][1], backend[0][2]) != u or not safe_component(u):
             return "principal collection %r created, back-end answered %r" % (e[1], backend and answer(backend[0][1], backend[0][2]))
+    rechecks = [e for e in ev if e[0] == "recheck"]
+    for e in rechecks:
+        u = e[1][1:-1]
+        if not backend or answer(backend[0][1], backend[0][2]) != u or not safe_component(u):
+            return "principal collection %r looked up under the w lock, back-end answered %r" % (e[1], backend and answer(backend[0][1], backend[0][2]))
+    for e in homes:
+        before_it = [r for r in rechecks if r[1] == e[1] and ev.index(r) < ev.index(e)]
+        if not before_it or before_it[-1][2]:
+            return "create_collection(%r) without a re-check under the exclusive lock that found it absent (events %r)" % (e[1], ev)
     created = [e for e in homes if e[2]]
     if o["store_changed"] != bool(created):
         return "store changed=%r but principal collections created=%r (new entries %r)" % (o["store_changed"], created, o["new_entries"][:4])
@@ -206,6 +215,9 @@ def gate_suite(ctx):
                 ctx.count("gate:status:%d" % o["status"])
                 ctx.count("gate:shape:" + case["shape"])
                 ctx.count("gate:kind:" + cfg["kind"].split(".")[-1])
+                for e in o["events"]:
+                    if e[0] == "recheck":
+                        ctx.count("gate:recheck:%s" % ("found-meanwhile" if e[2] else "absent"))
                 if any(e[0] == "dispatch" and e[4] for e in o["events"]):
                     ctx.count("gate:dispatched-as-user")
                 err = gate_monitor(cfg, case, o)
@@ -216,7 +228,7 @@ def gate_suite(ctx):
                 # spoofing: identity headers must not matter for another back-end
                 keep = X.CONFIGURED_KEY.get(cfg["kind"])
                 extra = [k for k in case["env"] if k in X.IDENTITY_KEYS and k != keep]
-                if extra and not o["store_changed"]:
+                if extra and not o["store_changed"] and not o["raced"]:
                     c2 = dict(case, env=strip_identity(case["env"], keep), precreate=[])
                     o2 = X.run_case(rig, c2)
                     spoof_checked += 1
@@ -250,7 +262,7 @@ def gate_suite(ctx):
 
 
 def _json_case(case):
-    return dict(env=case["env"], shape=case["shape"], handler=case["handler"], rights_w=case["rights_w"], precreate=case["precreate"],
+    return dict(env=case["env"], shape=case["shape"], handler=case["handler"], rights_w=case["rights_w"], precreate=case["precreate"], race=case.get("race"),
                 exists=case.get("exists"), users=case["users"],
                 script=[[l, pw, None if r is plug.RAISE else r] for (l, pw), r in case["script"].items()])
 
